@@ -258,10 +258,12 @@ def listStr (l : List String) : String := if l.isEmpty then "-" else ",".interca
 
 /-- `cli=` cases: what `awaitPandoraTermination` (model `Cli.run`) does with the result `res` of `Engine.Run`; whether
 its outer select read the signal first is what the process says in its own log (`rcv`) -/
-def cliPred (kind res : String) (evs : List String) : String :=
+def cliPred (kind var res : String) (csig2 : Bool) (evs : List String) : String :=
   let sg : Cli.Sig := if kind == "term" then .term else .int
   let events : List Cli.Ev :=
-    (if evs.contains "rcv" then [Cli.Ev.sig sg] else []) ++ [Cli.Ev.err (res == "ok"), Cli.Ev.waitDone]
+    (if evs.contains "rcv" then [Cli.Ev.sig sg] else []) ++ [Cli.Ev.err (res == "ok")] ++
+    -- while `Engine.Wait` is held up: the await timeout fires (`runT`) / the second signal arrives (`int2`, `term2`)
+    (if var == "T" then [Cli.Ev.timeout] else if csig2 then [Cli.Ev.sig sg] else []) ++ [Cli.Ev.waitDone]
   let acts := Cli.run events
   let waited := acts.contains .waited
   listStr (acts.filterMap fun a =>
@@ -333,7 +335,7 @@ def handle : Handler := fun input impl =>
         | some b => head ++ s!" blk={b}"
         | none => head
       let head := match o.cli with
-        | some evs => head ++ s!" cli={cliPred pl.cli res evs} csig={if o.csig then 1 else 0}"
+        | some evs => head ++ s!" cli={cliPred pl.cliKind pl.cliVar res o.csig2 evs} csig={if o.csig2 then 2 else if o.csig then 1 else 0}"
         | none => head
       let body := (List.range n).zip ps |>.map fun (i, pp) =>
         let real := match pl.pools[i]?, o.pools[i]? with
